@@ -561,7 +561,7 @@ func c08ModeOne(r *Result, seed int64, di int) {
 
 func init() {
 	register("C08", func(r *Result, rng *rand.Rand, tier string) {
-		n := map[string]int{"quick": 76, "thorough": 1500, "search": 400}[tier]
+		n := map[string]int{"quick": 152, "thorough": 1500, "search": 400}[tier]
 		off := rng.Intn(len(c08Zoo))
 		for i := 0; i < n && !expired(); i++ {
 			c08ModeOne(r, rng.Int63(), off+i)
